@@ -352,6 +352,25 @@ func (e *Engine) checkEvents() {
 	}
 	sort.Slice(all, func(i, j int) bool { return all[i].seq < all[j].seq })
 	accounted := map[uint64]bool{}
+	// the effects (apply, publish, listener) of the callbacks of one group
+	// must not interleave: what one callback produces comes entirely before
+	// or entirely after what another callback of its group produces
+	type span struct {
+		id          int
+		group       string
+		first, last uint64
+	}
+	var spans []span
+	defer func() {
+		for i, a := range spans {
+			for _, b := range spans[i+1:] {
+				if a.group == b.group && a.first < b.last && b.first < a.last {
+					e.H.Violate("C08", "group-effects-interleaved", "", fmt.Sprintf("callbacks %d and %d of group %q produced interleaved effects: seq [%d,%d] and [%d,%d]", a.id, b.id, a.group, a.first, a.last, b.first, b.last))
+					return
+				}
+			}
+		}
+	}()
 	for _, s := range e.Subs {
 		if s == nil {
 			continue
@@ -402,11 +421,19 @@ func (e *Engine) checkEvents() {
 		}
 		want := expectEventLog(pat, s.PatID, s.Op.Script, s.Op.ID, rname, s.Inbox, isReq, s.Handler)
 		var got []string
+		var first, last uint64
 		for _, en := range all {
 			if en.seq > w.enter && en.seq < w.exit && en.task == w.task {
 				got = append(got, en.text)
 				accounted[en.seq] = true
+				if first == 0 {
+					first = en.seq
+				}
+				last = en.seq
 			}
+		}
+		if s.Kind != "emitscript" && s.Group != "" && first != 0 {
+			spans = append(spans, span{s.Op.ID, s.Group, first, last})
 		}
 		if strings.Join(got, "\n") != strings.Join(want, "\n") {
 			e.H.Violate("C08", "event-sequence", "", fmt.Sprintf("callback %d (%s %s%s) script=%v pattern={type:%d apply:%q listeners:%d}\n got: %s\nwant: %s", s.Op.ID, s.Kind, s.Op.Subject, s.Op.RID, s.Op.Script, pat.Type, pat.Apply, pat.Listen, strings.Join(got, " | "), strings.Join(want, " | ")))
